@@ -187,7 +187,7 @@ type SCCGraph struct {
 // Subnodes returns the IDs of the nodes in the underlying graph that
 // comprise component cid.
 func (g *SCCGraph) Subnodes(cid int) []int {
-	return g.subnodes[g.subnodeIndexes[cid]:g.subnodeIndexes[cid+1]]
+	return g.subnodes[g.subnodeIndexes[cid]:g.subnodeIndexes[cid+1]:g.subnodeIndexes[cid+1]]
 }
 
 // SubnodeComponent returns the component ID (a node ID in g) of
@@ -215,5 +215,5 @@ func (g *SCCGraph) Out(cid int) []int {
 	if g.out == nil {
 		return nil
 	}
-	return g.out[g.outIndexes[cid]:g.outIndexes[cid+1]]
+	return g.out[g.outIndexes[cid]:g.outIndexes[cid+1]:g.outIndexes[cid+1]]
 }
